@@ -699,7 +699,9 @@ class MacroProgram(ElementProgram):
             return nodes.Text(node)
 
         if node.startswith('<!--?'):
-            return nodes.Text('<!--' + node.lstrip('<!-?'))
+            # (only the marker is removed: the comment's own text may
+            # start with one of these characters as well)
+            return nodes.Text('<!--' + node[len('<!--?'):])
 
         if not self._interpolation[-1] or '${' not in node:
             return nodes.Text(node)
